@@ -15,7 +15,7 @@ CLAIM = dict(
          "WIT package; overrides apply to unversioned keys only, are used exclusively, and must exist; returned "
          "bytes are the found file's bytes or the encoding/assembly of what was found; skipped/unknown exactly when "
          "nothing is there, by mode. The model is tied to the real resolver on every run by building directory "
-         "layouts in a temp dir for both feature builds (quick: seeded ~3k sample each; thorough: the exhaustive "
+         "layouts in a temp dir for both feature builds (quick: seeded ~9k sample each; thorough: the exhaustive "
          "71,280-layout space each).",
     design_ref="DESIGN.md §5 C18",
     note="Trusted: Coq kernel; extraction (ExtrOcamlBasic); OCaml driver; Rust harness. FsResolve.v is hand-written "
@@ -278,7 +278,7 @@ def run(res, tier, seed, replay):
              "binary, WIT dir, plain dir} x B.wasm in {absent, binary, WAT text, WIT dir, plain dir} x override in {none, "
              "other name, .wasm, .wat, bad .wat, .wit, bad .wit, no extension, dangling, directory, binary .wat} x both "
              "unknown-package modes = 71,280 layouts, each built in a fresh temp dir and resolved by the real "
-             "FileSystemPackageResolver, once per feature build (wit+wat, wit only). quick: seeded 1-in-24 sample; thorough: all. %d fixed regression/witness cases "
+             "FileSystemPackageResolver, once per feature build (wit+wat, wit only). quick: seeded 1-in-8 sample; thorough: all. %d fixed regression/witness cases "
              "run first. non-trivial = at least two of {B, B.wat, B.wasm, override for the key's name} are "
              "occupied (a precedence/applicability decision is exercised); distinct = distinct case lines" % n_fixed,
         samples=samples,
